@@ -162,3 +162,193 @@ Proof.
   intros H Hf Hr. destruct (reach_inv sched st id s H Hf). destruct (si_ret0 res e Hr) as (_ & ->). auto.
 Qed.
 
+(* the accepted set of a survey grows only by a response carrying ITS id (while it is registered),
+   or by its own local reply *)
+Lemma accepted_grows st l st' id s s' : NInv st ->
+  sstep st l = Some st' -> find_sv (n_surveys st) id = Some s -> find_sv (n_surveys st') id = Some s' ->
+  s_accepted s' = s_accepted s \/
+  (exists u v, l = LDeliver u id v /\ s_phase s <> Returned /\ s_accepted s' = s_accepted s ++ [mkResp u v]) \/
+  (exists v, l = LLocal id /\ s_accepted s' = s_accepted s ++ [mkResp 0 v]).
+Proof.
+  intros HN H Hf Hf'.
+  assert (Hother : forall id0 s0, st' = set_sv st id0 s0 -> id0 <> id -> s_accepted s' = s_accepted s).
+  { intros id0 s0 -> Hne. rewrite find_set in Hf'. replace (id0 =? id) with false in Hf' by (symmetry; apply Nat.eqb_neq; auto). congruence. }
+  destruct l; cbn [sstep] in H.
+  - destruct (numNodes =? 0); [discriminate|]. injection H as <-. cbn [n_surveys find_sv] in Hf'.
+    destruct (S (n_next st) =? id) eqn:E; [|left; congruence].
+    apply Nat.eqb_eq in E. destruct (HN id s Hf) as (_ & Hle). lia.
+  - destruct (find_sv (n_surveys st) id0) as [s0|] eqn:Ef; [|discriminate].
+    destruct (s_phase s0); try discriminate. injection H as <-. rewrite find_set in Hf'.
+    destruct (id0 =? id) eqn:E; [|left; congruence]. apply Nat.eqb_eq in E. subst. left.
+    rewrite Ef in Hf. injection Hf as <-. injection Hf' as <-. reflexivity.
+  - destruct (find_sv (n_surveys st) id0) as [s0|] eqn:Ef; [|discriminate].
+    destruct (s_local s0) as [v|]; [|discriminate]. destruct (length (s_buf s0) <? s_num s0); [|discriminate].
+    injection H as <-. rewrite find_set in Hf'.
+    destruct (id0 =? id) eqn:E; [|left; congruence]. apply Nat.eqb_eq in E. subst. right. right.
+    rewrite Ef in Hf. injection Hf as <-. injection Hf' as <-. exists v. auto.
+  - destruct (find_sv (n_surveys st) id0) as [s0|] eqn:Ef; [|injection H as <-; left; congruence].
+    assert (Hsame : st' = st -> s_accepted s' = s_accepted s) by (intros ->; congruence).
+    assert (Hadd : st' = set_sv st id0 (mkSv (s_num s0) (s_buf s0 ++ [mkResp uid v]) (s_results s0) (s_phase s0)
+                     (s_cancelled s0) (s_local s0) (s_ret s0) (s_accepted s0 ++ [mkResp uid v])) ->
+                   s_phase s0 <> Returned ->
+                   s_accepted s' = s_accepted s \/
+                   (exists u v0, LDeliver uid id0 v = LDeliver u id v0 /\ s_phase s <> Returned /\
+                                 s_accepted s' = s_accepted s ++ [mkResp u v0]) \/
+                   (exists v0, LDeliver uid id0 v = LLocal id /\ s_accepted s' = s_accepted s ++ [mkResp 0 v0])).
+    { intros -> Hp. rewrite find_set in Hf'. destruct (id0 =? id) eqn:E; [|left; congruence].
+      apply Nat.eqb_eq in E. subst. rewrite Ef in Hf. injection Hf as <-. injection Hf' as <-.
+      right. left. exists uid, v. auto. }
+    destruct (s_phase s0) eqn:Ep; try (injection H as <-; left; congruence);
+      (destruct (length (s_buf s0) <? s_num s0); injection H as <-; [apply Hadd; auto; discriminate|left; congruence]).
+  - destruct (find_sv (n_surveys st) id0) as [s0|] eqn:Ef; [|discriminate].
+    destruct (s_phase s0); try discriminate. destruct (s_buf s0); [discriminate|]. injection H as <-.
+    rewrite find_set in Hf'. destruct (id0 =? id) eqn:E; [|left; congruence]. apply Nat.eqb_eq in E. subst. left.
+    rewrite Ef in Hf. injection Hf as <-. injection Hf' as <-. reflexivity.
+  - destruct (find_sv (n_surveys st) id0) as [s0|] eqn:Ef; [|discriminate]. injection H as <-.
+    rewrite find_set in Hf'. destruct (id0 =? id) eqn:E; [|left; congruence]. apply Nat.eqb_eq in E. subst. left.
+    rewrite Ef in Hf. injection Hf as <-. injection Hf' as <-. reflexivity.
+  - destruct (find_sv (n_surveys st) id0) as [s0|] eqn:Ef; [|discriminate].
+    destruct (s_phase s0); try discriminate. destruct (s_cancelled s0); [|discriminate]. injection H as <-.
+    rewrite find_set in Hf'. destruct (id0 =? id) eqn:E; [|left; congruence]. apply Nat.eqb_eq in E. subst. left.
+    rewrite Ef in Hf. injection Hf as <-. injection Hf' as <-. reflexivity.
+  - destruct (find_sv (n_surveys st) id0) as [s0|] eqn:Ef; [|discriminate].
+    destruct (s_phase s0); try discriminate. injection H as <-.
+    rewrite find_set in Hf'. destruct (id0 =? id) eqn:E; [|left; congruence]. apply Nat.eqb_eq in E. subst. left.
+    rewrite Ef in Hf. injection Hf as <-. injection Hf' as <-. reflexivity.
+Qed.
+
+(* handleSurveyResponse never blocks, and a late / foreign / duplicate response touches no other survey *)
+Lemma deliver_total st uid id v :
+  exists st', sstep st (LDeliver uid id v) = Some st' /\
+              (forall id', id' <> id -> find_sv (n_surveys st') id' = find_sv (n_surveys st) id') /\
+              (match find_sv (n_surveys st) id with
+               | None => st' = st
+               | Some s => s_phase s = Returned -> st' = st
+               end).
+Proof.
+  cbn [sstep]. destruct (find_sv (n_surveys st) id) as [s|] eqn:Ef.
+  - destruct (s_phase s) eqn:Ep; try (exists st; repeat split; auto; discriminate);
+      (destruct (length (s_buf s) <? s_num s);
+       [eexists; split; [reflexivity|]; split; [|discriminate];
+        intros id' Hne; rewrite find_set; replace (id =? id') with false by (symmetry; apply Nat.eqb_neq; auto); reflexivity
+       |exists st; repeat split; auto; discriminate]).
+  - exists st. repeat split; auto.
+Qed.
+
+(* the collector: run it until the channel is empty *)
+Fixpoint collect_n (k : nat) (st : nst) (id : nat) : option nst :=
+  match k with
+  | 0 => Some st
+  | S k' => match sstep st (LCollect id) with Some st1 => collect_n k' st1 id | None => None end
+  end.
+
+(* "returns as soon as every expected node answered": if the responses the survey has accepted so far
+   (collected or still in the channel) come from numNodes distinct nodes, then the collector finishes
+   after at most |channel| of its own steps, each of them enabled. *)
+Lemma complete_finishes : forall buf st id s, NInv st ->
+  find_sv (n_surveys st) id = Some s -> s_phase s = Collecting -> s_buf s = buf ->
+  s_num s <= length (uids buf (map fst (s_results s))) ->
+  exists k st' s', k <= length buf /\ collect_n k st id = Some st' /\
+                   find_sv (n_surveys st') id = Some s' /\ s_phase s' = Finished /\ length (s_results s') = s_num s.
+Proof.
+  induction buf as [|r buf IH]; intros st id s HN Hf Hp Hb Hu.
+  - cbn in Hu. destruct (HN id s Hf) as (HS & _). destruct HS. rewrite map_length in Hu.
+    specialize (si_run0 ltac:(rewrite Hp; reflexivity)). lia.
+  - assert (E1 : sstep st (LCollect id) =
+              Some (set_sv st id (mkSv (s_num s) buf (map_put (s_results s) (r_uid r) (r_val r))
+                      (if length (map_put (s_results s) (r_uid r) (r_val r)) =? s_num s then Finished else Collecting)
+                      (s_cancelled s) (s_local s) (s_ret s) (s_accepted s)))).
+    { cbn [sstep]. rewrite Hf, Hp, Hb. reflexivity. }
+    pose proof (sstep_inv _ _ _ HN E1) as HN1.
+    destruct (length (map_put (s_results s) (r_uid r) (r_val r)) =? s_num s) eqn:El.
+    + apply Nat.eqb_eq in El. eexists 1, _, _. split; [cbn; lia|]. cbn [collect_n]. rewrite E1.
+      split; [reflexivity|]. rewrite find_set, Nat.eqb_refl. split; [reflexivity|]. cbn. auto.
+    + destruct (IH _ id _ HN1 ltac:(rewrite find_set, Nat.eqb_refl; reflexivity) eq_refl eq_refl)
+        as (k & st' & s' & Hk & Hc & Hf' & Hp' & Hl').
+      { cbn [s_num s_results]. cbn [uids] in Hu. rewrite map_put_keys.
+        destruct (existsb (N.eqb (r_uid r)) (map fst (s_results s))); exact Hu. }
+      exists (S k), st', s'. split; [cbn; lia|]. cbn [collect_n]. rewrite E1. auto.
+Qed.
+
+(* deadline: once the context is done the collector can stop, and Survey then returns what it has with a
+   non-nil error *)
+Lemma deadline_returns st id s : find_sv (n_surveys st) id = Some s -> s_phase s = Collecting -> s_cancelled s = true ->
+  exists st1 st2 s2, sstep st (LDeadline id) = Some st1 /\ sstep st1 (LReturn id) = Some st2 /\
+                     find_sv (n_surveys st2) id = Some s2 /\ s_ret s2 = Some (s_results s, true) /\ s_phase s2 = Returned.
+Proof.
+  intros Hf Hp Hc. cbn [sstep]. rewrite Hf, Hp, Hc. eexists. eexists. eexists. split; [reflexivity|].
+  rewrite find_set, Nat.eqb_refl. cbn [s_phase]. split; [reflexivity|]. rewrite find_set, Nat.eqb_refl.
+  split; [reflexivity|]. cbn. auto.
+Qed.
+
+Lemma finished_returns st id s : find_sv (n_surveys st) id = Some s -> s_phase s = Finished ->
+  exists st2 s2, sstep st (LReturn id) = Some st2 /\ find_sv (n_surveys st2) id = Some s2 /\
+                 s_ret s2 = Some (s_results s, s_cancelled s).
+Proof.
+  intros Hf Hp. cbn [sstep]. rewrite Hf, Hp. eexists. eexists. split; [reflexivity|].
+  rewrite find_set, Nat.eqb_refl. split; [reflexivity|]. reflexivity.
+Qed.
+
+(* The LOCAL reply is a blocking send: if the collector has stopped while the channel is full, the local
+   handler's callback blocks, and stays blocked for ever. *)
+Definition stuck (s : sv) : Prop :=
+  (s_phase s = Finished \/ s_phase s = Returned) /\ length (s_buf s) = s_num s.
+
+Lemma stuck_step st l st' id s : sstep st l = Some st' -> find_sv (n_surveys st) id = Some s -> stuck s -> NInv st ->
+  exists s', find_sv (n_surveys st') id = Some s' /\ stuck s' /\ s_local s' = s_local s.
+Proof.
+  intros H Hf (Hp & Hl) HN.
+  assert (Hother : forall id0 s0, st' = set_sv st id0 s0 -> id0 <> id ->
+            exists s', find_sv (n_surveys st') id = Some s' /\ stuck s' /\ s_local s' = s_local s).
+  { intros id0 s0 -> Hne. exists s. rewrite find_set. replace (id0 =? id) with false by (symmetry; apply Nat.eqb_neq; auto).
+    repeat split; auto. }
+  assert (Hsame : st' = st -> exists s', find_sv (n_surveys st') id = Some s' /\ stuck s' /\ s_local s' = s_local s).
+  { intros ->. exists s. repeat split; auto. }
+  destruct l; cbn [sstep] in H.
+  - destruct (numNodes =? 0); [discriminate|]. injection H as <-. cbn [n_surveys find_sv].
+    destruct (S (n_next st) =? id) eqn:E.
+    + apply Nat.eqb_eq in E. destruct (HN id s Hf) as (_ & Hle). lia.
+    + exists s. repeat split; auto.
+  - destruct (find_sv (n_surveys st) id0) as [s0|] eqn:Ef; [|discriminate].
+    destruct (s_phase s0) eqn:Ep; try discriminate. injection H as H. destruct (Nat.eq_dec id0 id) as [->|Hne]; [|eapply Hother; eauto].
+    rewrite Ef in Hf. injection Hf as <-. destruct Hp; congruence.
+  - destruct (find_sv (n_surveys st) id0) as [s0|] eqn:Ef; [|discriminate].
+    destruct (s_local s0) as [v|]; [|discriminate]. destruct (length (s_buf s0) <? s_num s0) eqn:El; [|discriminate].
+    injection H as H. destruct (Nat.eq_dec id0 id) as [->|Hne]; [|eapply Hother; eauto].
+    rewrite Ef in Hf. injection Hf as <-. apply Nat.ltb_lt in El. lia.
+  - destruct (find_sv (n_surveys st) id0) as [s0|] eqn:Ef; [|injection H as <-; auto].
+    destruct (Nat.eq_dec id0 id) as [->|Hne].
+    + rewrite Ef in Hf. injection Hf as <-.
+      replace (length (s_buf s) <? s_num s) with false in H by (symmetry; apply Nat.ltb_ge; lia).
+      destruct (s_phase s); injection H as <-; auto.
+    + destruct (s_phase s0); try (injection H as <-; auto);
+        (destruct (length (s_buf s0) <? s_num s0); injection H as H; [eapply Hother; eauto|auto]).
+  - destruct (find_sv (n_surveys st) id0) as [s0|] eqn:Ef; [|discriminate].
+    destruct (s_phase s0) eqn:Ep; try discriminate. destruct (s_buf s0); [discriminate|]. injection H as H.
+    destruct (Nat.eq_dec id0 id) as [->|Hne]; [|eapply Hother; eauto].
+    rewrite Ef in Hf. injection Hf as <-. destruct Hp; congruence.
+  - destruct (find_sv (n_surveys st) id0) as [s0|] eqn:Ef; [|discriminate]. injection H as <-.
+    destruct (Nat.eq_dec id0 id) as [->|Hne]; [|eapply Hother; eauto].
+    rewrite Ef in Hf. injection Hf as <-. eexists. rewrite find_set, Nat.eqb_refl. split; [reflexivity|].
+    split; [split; auto|reflexivity].
+  - destruct (find_sv (n_surveys st) id0) as [s0|] eqn:Ef; [|discriminate].
+    destruct (s_phase s0) eqn:Ep; try discriminate. destruct (s_cancelled s0); [|discriminate]. injection H as H.
+    destruct (Nat.eq_dec id0 id) as [->|Hne]; [|eapply Hother; eauto].
+    rewrite Ef in Hf. injection Hf as <-. destruct Hp; congruence.
+  - destruct (find_sv (n_surveys st) id0) as [s0|] eqn:Ef; [|discriminate].
+    destruct (s_phase s0) eqn:Ep; try discriminate. injection H as <-.
+    destruct (Nat.eq_dec id0 id) as [->|Hne]; [|eapply Hother; eauto].
+    rewrite Ef in Hf. injection Hf as <-. eexists. rewrite find_set, Nat.eqb_refl. split; [reflexivity|].
+    split; [split; auto|reflexivity].
+Qed.
+
+Lemma stuck_forever sched : forall st st' id s, NInv st -> find_sv (n_surveys st) id = Some s -> stuck s ->
+  srun st sched = Some st' -> sstep st' (LLocal id) = None.
+Proof.
+  induction sched as [|l sched IH]; intros st st' id s HN Hf Hs; cbn [srun].
+  - intros [= <-]. cbn [sstep]. rewrite Hf. destruct (s_local s); auto. destruct Hs as (_ & Hl).
+    replace (length (s_buf s) <? s_num s) with false by (symmetry; apply Nat.ltb_ge; lia). reflexivity.
+  - destruct (sstep st l) as [st1|] eqn:E; [|discriminate]. intros H.
+    destruct (stuck_step st l st1 id s E Hf Hs HN) as (s1 & Hf1 & Hs1 & _).
+    eapply IH; eauto. eapply sstep_inv; eauto.
+Qed.
